@@ -51,6 +51,13 @@ class G:
         self.used.add(fn)
         arg = self.expr(depth - 1)
         r = rng.random()
+        if fn != "call_next" and rng.random() < 0.08:
+            # a later argument rebinds a name an earlier argument reads: the earlier value must be the one passed
+            self.used.add("rebind")
+            if "kw" in self.allow and rng.random() < 0.4:
+                self.used.add("kw")
+                return f"{fn}({arg}, tag=y, w=(y := TICK({self.t()}, {rng.randint(10, 19)})))"
+            return f"{fn}(y, (y := TICK({self.t()}, {rng.randint(10, 19)})))"
         if "kw" in self.allow and r < 0.2 and fn != "call_next":
             self.used.add("kw")
             # one or two keyword arguments, in either order (their expressions must be evaluated as written)
@@ -317,6 +324,13 @@ def worker(payload):
             if log_bad[-1]:
                 o1["viol"].append({"law": "method entered with an argument its annotation excludes", "entries": list(log_bad[-1]), **wit, "args": repr(args), "src": src})
             want = outcome(ref, args, kwargs, log, rname)
+            # C08: a body that delegates through recurse / the function's own name only: the reference IS "calling the
+            # overloaded function with those arguments"
+            o8 = None
+            if (g.used & {"recurse", "F"}) and "call_next" not in g.used:
+                o8 = out["oracles"].setdefault("C08", {"n": 0, "nontrivial": 0, "viol": [], "known": {}})
+                o8["n"] += 1
+                o8["nontrivial"] += 1
             if got != want:
                 w2 = {**wit, "args": repr(args), "kwargs": kwargs, "got": got, "want": want, "src": src}
                 if got.get("exc") == "SyntaxError" and "comp_iter" in g.used:
@@ -329,6 +343,8 @@ def worker(payload):
                     known("D25:call_next-with-starred-arguments", w2)
                 else:
                     o["viol"].append({"law": "rewritten method behaves differently from its source", **w2})
+                    if o8 is not None:
+                        o8["viol"].append({"law": "recurse(args) does not behave like calling the overloaded function with those arguments", **w2})
                 break
         if len(out["samples"]) < 1:
             out["samples"].append({"body": lines, "features": sorted(g.used)})
